@@ -203,7 +203,13 @@ pub fn c16_worker(ctx: &mut Ctx) {
                 }
             }
             _ => {
-                if rng.below(2) == 0 {
+                let which = rng.below(3);
+                if which == 2 {
+                    let pc = gen_decimal_tee(&mut rng);
+                    // only exact T contacts (or the degenerate shared-endpoint / collinear draws, which the table covers too)
+                    ctx.cnt("decimal_axis_parallel_contact_pairs", 1);
+                    handle(ctx, &pc, false, &mut st, &mut n2_reported);
+                } else if which == 0 {
                     let pc = gen_parallel_pair(&mut rng);
                     if seg_rel(norm_seg(pc.s1), norm_seg(pc.s2)) == Rel::Disjoint {
                         ctx.cnt("exactly_parallel_near_coincident_pairs", 1);
